@@ -9,6 +9,7 @@ import (
 	"sort"
 	"strings"
 	"testing"
+	"time"
 
 	mwdb "massnet.org/mass-wallet/masswallet/db"
 	_ "massnet.org/mass-wallet/masswallet/db/ldb"
@@ -89,6 +90,7 @@ type c11sm struct {
 	committed *mnode
 	trace     []string
 	flags     map[string]bool
+	qn        int
 }
 
 // navigate returns the real bucket for a model path inside tx.
@@ -318,6 +320,90 @@ func (s *c11sm) auditRead(t *rapid.T, rtx mwdb.ReadTransaction, model *mnode, de
 }
 
 var errAbort = errors.New("verif: abort transaction")
+
+// queuedWriter: while write transaction A is open, a second writer B asks for a write transaction
+// (it has to wait); A goes on writing and then commits or rolls back; B then runs. A must land all
+// together or not at all, B must land, and neither may see or disturb the other.
+func (s *c11sm) queuedWriter(t *rapid.T) {
+	var tops []string
+	for n := range s.committed.subs {
+		tops = append(tops, n)
+	}
+	if len(tops) == 0 {
+		t.Skip("no bucket yet")
+	}
+	sort.Strings(tops)
+	name := tops[rapid.IntRange(0, len(tops)-1).Draw(t, "qBucket")]
+	commit := rapid.IntRange(0, 2).Draw(t, "qCommit") > 0
+	s.qn++
+	k1, k2, kb := []byte(fmt.Sprintf("qa1-%d", s.qn)), []byte(fmt.Sprintf("qa2-%d", s.qn)), []byte(fmt.Sprintf("qb-%d", s.qn))
+	v1, v2, vb := genVal(t, "qv1"), genVal(t, "qv2"), genVal(t, "qvb")
+	txA, err := s.db.BeginTx()
+	if err != nil {
+		t.Fatalf("BeginTx: %v", err)
+	}
+	bA := txA.TopLevelBucket(name)
+	if bA == nil {
+		txA.Rollback()
+		t.Fatalf("top-level bucket %q not found", name)
+	}
+	if err := bA.Put(k1, v1); err != nil {
+		t.Fatalf("Put: %v", err)
+	}
+	started := make(chan struct{})
+	doneB := make(chan error, 1)
+	go func() {
+		close(started)
+		doneB <- mwdb.Update(s.db, func(tx mwdb.DBTransaction) error {
+			b := tx.TopLevelBucket(name)
+			if b == nil {
+				return fmt.Errorf("bucket %q not found by the queued writer", name)
+			}
+			if v, _ := b.Get(k2); v != nil && !commit {
+				return fmt.Errorf("queued writer sees %q written by a transaction that was rolled back", k2)
+			}
+			return b.Put(kb, vb)
+		})
+	}()
+	<-started
+	time.Sleep(15 * time.Millisecond) // B is now waiting for the writer lock
+	select {
+	case err := <-doneB:
+		t.Fatalf("a second write transaction ran to completion (%v) while the first one was still open", err)
+	default:
+	}
+	if err := bA.Put(k2, v2); err != nil {
+		t.Fatalf("Put: %v", err)
+	}
+	for _, kv := range [][2][]byte{{k1, v1}, {k2, v2}} {
+		if got, err := bA.Get(kv[0]); err != nil || !bytes.Equal(got, kv[1]) {
+			t.Fatalf("transaction does not read its own write %q: %x, %v", kv[0], got, err)
+		}
+	}
+	if got, _ := bA.Get(kb); got != nil {
+		t.Fatalf("open transaction sees the queued writer's key %q", kb)
+	}
+	if commit {
+		if err := txA.Commit(); err != nil {
+			t.Fatalf("Commit: %v", err)
+		}
+		s.committed.subs[name].kv[string(k1)] = v1
+		s.committed.subs[name].kv[string(k2)] = v2
+	} else if err := txA.Rollback(); err != nil {
+		t.Fatalf("Rollback: %v", err)
+	}
+	select {
+	case err := <-doneB:
+		if err != nil {
+			t.Fatalf("queued writer: %v", err)
+		}
+	case <-time.After(20 * time.Second):
+		t.Fatalf("queued writer still blocked 20 s after the first transaction ended")
+	}
+	s.committed.subs[name].kv[string(kb)] = vb
+	s.flags["queued-writer"] = true
+	s.trace = append(s.trace, fmt.Sprintf("queuedWriter:%s:commit=%v", name, commit))
+}
 
 func (s *c11sm) writeTx(t *rapid.T) {
 	work := s.committed.clone()
@@ -597,7 +683,8 @@ func propC11(t *rapid.T) {
 	s := &c11sm{dir: dbPath, db: db, committed: newNode(), flags: map[string]bool{}}
 	defer func() { s.db.Close() }()
 	t.Repeat(map[string]func(*rapid.T){
-		"tx": s.writeTx,
+		"tx":           s.writeTx,
+		"queuedWriter": s.queuedWriter,
 		"reopen": func(t *rapid.T) {
 			if err := s.db.Close(); err != nil {
 				t.Fatalf("Close: %v", err)
